@@ -40,8 +40,12 @@ class SDVRP(Adapter):
         return (inst["N"], inst["cap"])
 
     def step_cap(self, inst):
-        loads = -(-sum(inst["dem"]) // inst["cap"])
-        return 2 * inst["N"] + 2 * loads + 4
+        """depth at which the exhaustive expansion gives up (such an episode fails C02).  One more
+        than the longest possible episode: every visit either completes a customer (N of them)
+        or fills the vehicle (at most floor(total / cap) of them), every route but the last is
+        followed by one depot step, so length <= 2 * (N + total // cap) - 1 (<= StepBound).
+        Kept tight because a mask that offers useless visits makes the frontier explode."""
+        return 2 * (inst["N"] + sum(inst["dem"]) // inst["cap"])
 
     def make_env(self, inst):
         from rl4co.envs import SDVRPEnv
